@@ -122,6 +122,23 @@ func checkHeader(c hdrCase) []vf.Finding {
 	if h2.PIDHigh != c.PIDHigh || h2.PIDLow != c.PIDLow {
 		fs = append(fs, vf.F("Header.SetPID", "pid-decomposition-wrong", "%#x -> high %#x low %#x", uint32(c.PIDHigh)<<16|uint32(c.PIDLow), h2.PIDHigh, h2.PIDLow))
 	}
+	// SetPID on a header that already carries a PID (this one: assigned above; a decoded one: back) replaces both
+	// halves, whatever the new value is - a 16-bit PID, zero, the halves exchanged - and the encoding carries it
+	for _, hdr := range []*header.Header{h, back} {
+		for _, pid := range []uint32{uint32(c.PIDLow), 0, uint32(c.PIDLow)<<16 | uint32(c.PIDHigh), uint32(c.PIDHigh) << 16} {
+			before := hdr.GetPID()
+			hdr.SetPID(pid)
+			enc, err := hdr.Marshal()
+			if hdr.GetPID() != pid || hdr.PIDHigh != uint16(pid>>16) || hdr.PIDLow != uint16(pid) {
+				fs = append(fs, vf.F("Header.SetPID", "pid-not-replaced", "SetPID(%#x) on a header whose PID was %#x: GetPID %#x, high %#x low %#x", pid, before, hdr.GetPID(), hdr.PIDHigh, hdr.PIDLow))
+				break
+			}
+			if err != nil || len(enc) != 32 || binary.LittleEndian.Uint16(enc[12:]) != uint16(pid>>16) || binary.LittleEndian.Uint16(enc[26:]) != uint16(pid) {
+				fs = append(fs, vf.F("Header.Marshal", "pid-not-replaced", "SetPID(%#x) on a header whose PID was %#x: encoded %x (err %v)", pid, before, enc, err))
+				break
+			}
+		}
+	}
 	return fs
 }
 
